@@ -52,10 +52,20 @@ type c02Req struct {
 	P  []c02Step `json:"p"`
 }
 
+// c02Opt is one api.RouteOption of the list handed to Server.AddRoutes, in list order.
+type c02Opt struct {
+	K string `json:"k"`           // prefix | maxbytes | timeout | priority
+	N int    `json:"n,omitempty"` // maxbytes: bytes; timeout: ticks (0 in either: back to the Config value)
+	S string `json:"s,omitempty"` // prefix: group
+}
+
+// c02Route is one AddRoutes call with a one-element []Route. Base path /c02/r<i>;
+// with Sh the call passes the SAME []Route slice value as the previous call
+// (same method and base path), under another prefix.
 type c02Route struct {
-	M  string `json:"m"`            // method; path is /c02/r<i>
-	TO int    `json:"to,omitempty"` // per-route timeout override in ticks (0: Config.Timeout)
-	MB int    `json:"mb,omitempty"` // per-route MaxBytes override (0: Config.MaxBytes)
+	M  string   `json:"m"`
+	O  []c02Opt `json:"o,omitempty"`
+	Sh bool     `json:"sh,omitempty"`
 }
 
 type c02Case struct {
@@ -68,18 +78,77 @@ type c02Case struct {
 	G  [][]c02Req `json:"g"` // groups, 11 s apart
 }
 
+// Model of the route options, from their documentation: the last WithTimeout /
+// WithMaxBytes of the list is the route's setting (a value <= 0 means "use the
+// Config value"), every WithPrefix(group) puts group in front of the path built so
+// far, WithPriority changes nothing here (no shedder in the chain). An option never
+// undoes another kind of option, whatever the order.
 func (c c02Case) timeoutTicks(rt int) int {
-	if c.R[rt].TO > 0 {
-		return c.R[rt].TO
+	v := 0
+	for _, o := range c.R[rt].O {
+		if o.K == "timeout" {
+			v = o.N
+		}
+	}
+	if v > 0 {
+		return v
 	}
 	return c.T * 10
 }
 
 func (c c02Case) maxBytes(rt int) int {
-	if c.R[rt].MB > 0 {
-		return c.R[rt].MB
+	v := 0
+	for _, o := range c.R[rt].O {
+		if o.K == "maxbytes" {
+			v = o.N
+		}
+	}
+	if v > 0 {
+		return v
 	}
 	return c.MB
+}
+
+func (c c02Case) basePath(rt int) string {
+	for rt > 0 && c.R[rt].Sh {
+		rt--
+	}
+	return fmt.Sprintf("/c02/r%d", rt)
+}
+
+func (c c02Case) routePath(rt int) string {
+	p := c.basePath(rt)
+	for _, o := range c.R[rt].O {
+		if o.K == "prefix" {
+			p = strings.TrimRight(o.S, "/") + p // groups are clean ("/a", "/a/b"): this is path.Join(group, p)
+		}
+	}
+	return p
+}
+
+func (c c02Case) optClasses(cls map[string]bool) {
+	for _, r := range c.R {
+		if r.Sh {
+			cls["route-slice-added-twice"] = true
+		}
+		seen := map[string]int{}
+		for _, o := range r.O {
+			if o.K == "prefix" && seen["maxbytes"] > 0 {
+				cls["opt:maxbytes-before-prefix"] = true
+			}
+			if o.K == "prefix" && seen["timeout"] > 0 {
+				cls["opt:timeout-before-prefix"] = true
+			}
+			if (o.K == "maxbytes" || o.K == "timeout") && seen[o.K] > 0 {
+				cls["opt:setting-overridden"] = true
+			}
+			if o.K == "prefix" && seen["prefix"] > 0 {
+				cls["opt:two-prefixes"] = true
+			}
+			seen[o.K]++
+			cls["opt:"+o.K] = true
+		}
+	}
 }
 
 // ---------------------------------------------------------------------------
@@ -295,6 +364,35 @@ func c02Valid(c c02Case) bool {
 	if len(c.R) == 0 || len(c.R) > 3 || c.T < 0 || c.MC < 0 || c.MB < 0 {
 		return false
 	}
+	paths := map[string]bool{}
+	for i, r := range c.R {
+		if r.Sh && (i == 0 || c02Method(r.M) != c02Method(c.R[i-1].M)) {
+			return false
+		}
+		if len(r.O) > 8 {
+			return false
+		}
+		for _, o := range r.O {
+			switch o.K {
+			case "prefix":
+				if len(o.S) < 2 || o.S[0] != '/' || strings.HasSuffix(o.S, "/") || strings.Contains(o.S, "//") || strings.ContainsAny(o.S, ":.*?# ") {
+					return false
+				}
+			case "maxbytes", "timeout":
+				if o.N < 0 {
+					return false
+				}
+			case "priority":
+			default:
+				return false
+			}
+		}
+		k := c02Method(r.M) + " " + c.routePath(i)
+		if paths[k] {
+			return false
+		}
+		paths[k] = true
+	}
 	id := 0
 	for _, g := range c.G {
 		risky := make([]int, len(c.R))
@@ -431,7 +529,7 @@ func c02Run(t *testing.T, c c02Case, build c02Builder, leakExpected bool) (v kit
 					tm := time.AfterFunc(time.Duration(fl.q.Cn)*c02Tick, cancel)
 					defer tm.Stop()
 				}
-				r := httptest.NewRequest(c02Method(c.R[fl.q.Rt].M), fmt.Sprintf("/c02/r%d", fl.q.Rt),
+				r := httptest.NewRequest(c02Method(c.R[fl.q.Rt].M), c.routePath(fl.q.Rt),
 					strings.NewReader(strings.Repeat("b", fl.q.BL))).WithContext(ctx)
 				r.ContentLength = int64(fl.q.CL)
 				r.Header.Set("X-C02-Id", fmt.Sprint(fl.id))
@@ -494,6 +592,7 @@ func c02Judge(c c02Case, flat []c02Flat, obs []*c02Obs, maxCur []int32, cls map[
 	if len(c.G) > 1 {
 		cls["two-groups"] = true
 	}
+	c.optClasses(cls)
 	for _, fl := range flat { // ascending arrival instant
 		o, q, p := obs[fl.id], fl.q, fl.plan
 		who := fmt.Sprintf("request %d (route %d, arrival %dµs, plan d=%d f=%d panics=%v)", fl.id, q.Rt, fl.arrUS, p.d, p.f, p.panics)
@@ -778,11 +877,28 @@ func c02GenCase(rt *rapid.T) c02Case {
 	nr := rapid.SampledFrom([]int{1, 1, 1, 2}).Draw(rt, "routes")
 	for i := 0; i < nr; i++ {
 		r := c02Route{M: rapid.SampledFrom([]string{"GET", "POST", "PUT", "DELETE"}).Draw(rt, "method")}
-		if rapid.IntRange(0, 4).Draw(rt, "rto") == 0 {
-			r.TO = rapid.SampledFrom([]int{1, 2, 5, 15, 30}).Draw(rt, "to")
+		if i > 0 && rapid.Bool().Draw(rt, "shared") {
+			r.Sh, r.M = true, c.R[i-1].M
 		}
-		if rapid.IntRange(0, 4).Draw(rt, "rmb") == 0 {
-			r.MB = rapid.IntRange(1, 64).Draw(rt, "rmbv")
+		if rapid.IntRange(0, 2).Draw(rt, "hasopts") > 0 {
+			for j, n := 0, rapid.IntRange(1, 4).Draw(rt, "nopts"); j < n; j++ {
+				switch rapid.SampledFrom([]string{"prefix", "prefix", "maxbytes", "maxbytes", "timeout", "timeout", "priority"}).Draw(rt, "opt") {
+				case "prefix":
+					r.O = append(r.O, c02Opt{K: "prefix", S: rapid.SampledFrom([]string{"/v1", "/api/v2", "/g"}).Draw(rt, "group")})
+				case "maxbytes":
+					r.O = append(r.O, c02Opt{K: "maxbytes", N: rapid.SampledFrom([]int{0, 1, 2, 7, 20, 64}).Draw(rt, "rmb")})
+				case "timeout":
+					r.O = append(r.O, c02Opt{K: "timeout", N: rapid.SampledFrom([]int{0, 1, 2, 5, 15, 30}).Draw(rt, "rto")})
+				case "priority":
+					r.O = append(r.O, c02Opt{K: "priority"})
+				}
+			}
+		}
+		if r.Sh {
+			// a prefix of its own, somewhere in the list, keeps the two bound paths apart
+			at := rapid.IntRange(0, len(r.O)).Draw(rt, "ownprefix")
+			own := c02Opt{K: "prefix", S: fmt.Sprintf("/s%d", i)}
+			r.O = append(r.O[:at], append([]c02Opt{own}, r.O[at:]...)...)
 		}
 		c.R = append(c.R, r)
 	}
